@@ -343,6 +343,21 @@ func (m c15) Directed(c *Ctx) {
 	m.run(c, []string{"a"}, map[string][]jsonapi.Rel{
 		"a": {{FromType: "a", FromName: "parent", ToOne: true, ToType: "a", ToName: "children"}, {FromType: "a", FromName: "children", ToType: "a", ToName: "parent", FromOne: true}},
 	}, nil, "")
+	// many offending relationships at once: every one of them gets an error (no cap on the number reported)
+	c.Name = "many-offending-relationships"
+	{
+		var order []string
+		types := map[string][]jsonapi.Rel{}
+		for i := 0; i < 40; i++ {
+			tn := fmt.Sprintf("t%02d", i)
+			order = append(order, tn)
+			for j := 0; j < 6; j++ {
+				types[tn] = append(types[tn], jsonapi.Rel{FromType: tn, FromName: fmt.Sprintf("r%d", j), ToType: fmt.Sprintf("ghost%d", (i+j)%7), ToOne: j%2 == 0})
+			}
+		}
+		m.run(c, order, types, nil, "")
+		c.Count("schemas_with_more_than_200_offending_relationships")
+	}
 	c.Name = "empty-schema"
 	m.run(c, nil, map[string][]jsonapi.Rel{}, nil, "")
 	// exhaustive over a tiny universe whose names collide under any separator-joined key: types {a, a_b},
